@@ -55,10 +55,15 @@ ASSUMPTIONS = [
   "line budget: 200000 + 400 x pending bytes per wake-up",
 ]
 EXHAUSTIVE_SCOPE = {
-  "quick": "6 representative target types per side x 3 positions in the victim's traffic x 2 connection orders: length field 0..len+8 and "
-           "0xffff; type byte 0..255; version byte 0..255; every embedded length field 0..value+8, 0x7fff, 0x8000, 0xffff; every truncation "
-           "length followed by EOF / by valid traffic; plus every truncation point of a 5-message stream",
-  "thorough": "the same for all 13 types of each direction and the 9 wrong-direction types",
+  "quick": "6 representative target messages per side (HELLO, ECHO_REQUEST, FEATURES_REPLY/FLOW_MOD, PACKET_IN/PACKET_OUT, PORT_STATUS/"
+           "SET_CONFIG, flow STATS_REPLY/STATS_REQUEST): every length-field value 0..len+8, 0x7fff and 0xffff at each of 3 positions in "
+           "the victim's traffic (first / between / last) x 2 connection orders; every type-byte and version-byte value 0..255, each at "
+           "2 of the 6 position/order combinations; every embedded length field (action len, actions_len, flow-stats entry length) at "
+           "0..value+8, 0x7fff, 0x8000, 0xffff with rotating position/order; every truncation length of the target followed by EOF and "
+           "followed by more valid traffic; every truncation point of a 5-message stream followed by EOF. Half of the scenarios deliver "
+           "the corrupted header split across two reads or separately from its body.",
+  "thorough": "the same for every message type of each direction (all stats kinds, queue properties) and for the 9 types of the "
+              "opposite direction arriving at the wrong side",
 }
 
 _S = None
